@@ -11,7 +11,7 @@ from .. import expr as E
 from .. import gen
 from ..arm import Arm
 from ..common import CaseResult, HarnessError, exc_bucket, short_exc
-from ..model import RefModel, build_circuit, render_eq, var_decl
+from ..model import edge_source_attributes, RefModel, build_circuit, render_eq, var_decl
 
 PROPERTY = {
     "id": "C15",
@@ -135,6 +135,7 @@ def circuit_docs(spec, docs, top="net", nodes=None, edges=None):
         if e.get("d") is not None:
             d["delay"] = float(e["d"])
         d.update(e.get("ev") or {})
+        d.update(edge_source_attributes(spec, e))
         by_scope.setdefault(e.get("scope") or "", []).append([e["s"], e["t"], e.get("et") or None, d])
 
     def level(prefix, entries, cname):
@@ -176,6 +177,52 @@ def spec_docs(spec):
             docs[etname] = {"base": "EdgeTemplate", "operators": list(et["ops"])}
     circuit_docs(spec, docs)
     return docs
+
+
+def split_docs(spec, local_nts, d):
+    """the same model spread over two YAML files: lib.yaml holds the operator/edge templates and the node templates that
+    are not in local_nts; main.yaml holds the circuits and the node templates in local_nts.  References into the other
+    file are fully qualified (<dir>/lib/<name>), references inside main.yaml are bare names.  lib.yaml additionally holds
+    DECOYS: templates named like the local node templates of main.yaml but with other values - a bare reference that is
+    resolved against the wrong file silently picks those up."""
+    import copy
+    docs = spec_docs(spec)
+    lib, main = {}, {}
+
+    def q(name):
+        # (a reference without a dot is completed with the referring file's path; "./dir/file/name" is taken as it is)
+        return f"./{d}/lib/{name}"
+    for name, doc in docs.items():
+        doc = copy.deepcopy(doc)
+        base = doc["base"]
+        if base in ("OperatorTemplate", "EdgeTemplate"):
+            lib[name] = doc
+        elif base == "NodeTemplate":
+            if name in local_nts:
+                ops = doc["operators"]
+                decoy = {}
+                for o in (ops if isinstance(ops, list) else list(ops)):
+                    vals = {}
+                    for v, kind, val in spec["ops"][o]["vars"]:
+                        if kind in ("state", "const"):
+                            vals[v] = round(float((ops.get(o, {}) if isinstance(ops, dict) else {}).get(v, val)) + 0.371, 4)
+                    decoy[o] = vals
+                lib[name] = {"base": "NodeTemplate", "operators": decoy}
+                if isinstance(ops, list):
+                    doc["operators"] = [q(o) for o in ops]
+                else:
+                    doc["operators"] = {q(o): v for o, v in ops.items()}
+                main[name] = doc
+            else:
+                lib[name] = doc
+        else:
+            if "nodes" in doc:
+                doc["nodes"] = {k: (nt if nt in local_nts else q(nt)) for k, nt in doc["nodes"].items()}
+            for e in doc.get("edges", []):
+                if e[2]:
+                    e[2] = q(e[2])
+            main[name] = doc
+    return lib, main
 
 
 def dump(docs, path):
@@ -394,7 +441,7 @@ class DefinitionsArm(Arm):
     case_timeout = 300
     required_labels = ("derived:rename", "derived:append", "derived:remove", "derived:add", "derived:defaults",
                        "derived:circuit", "overrides", "hierarchy", "containment", "same_node_template_names",
-                       "edge_template", "edge_template_shared", "edge_attribute_values")
+                       "edge_template", "edge_template_shared", "edge_attribute_values", "split_files", "split_local_and_foreign_nodes")
 
     def strategy(self, ctx):
         @st.composite
@@ -405,8 +452,10 @@ class DefinitionsArm(Arm):
             if draw(st.integers(0, 2)) == 0:
                 spec = draw(gen.with_edge_templates(spec))
             plan = draw(derivation(spec))
+            nts = sorted(spec["ntypes"])
+            local = sorted(draw(st.sets(st.sampled_from(nts), max_size=len(nts)))) if draw(st.booleans()) else None
             return {"spec": spec, "plan": plan, "same_names": draw(st.sampled_from([False, False, True])),
-                    "dict_decl": draw(st.booleans())}
+                    "dict_decl": draw(st.booleans()), "split": local}
         return case()
 
     def valid(self, case):
@@ -493,6 +542,14 @@ class DefinitionsArm(Arm):
             # (Y) harness-written YAML
             dump(spec_docs(spec), f"{d}/plain.yaml")
             variants.append(("yaml", lambda: CircuitTemplate.from_yaml(f"{d}/plain/net")))
+            # (S) the same templates spread over two files that refer to one another
+            if case.get("split") is not None:
+                lib, main = split_docs(spec, set(case["split"]), d)
+                dump(lib, f"{d}/lib.yaml")
+                dump(main, f"{d}/main.yaml")
+                variants.append(("yaml-split", lambda: CircuitTemplate.from_yaml(f"{d}/main/net")))
+                res.labels = sorted(set(res.labels) | {"split_files"} | ({"split_local_and_foreign_nodes"} if
+                                    0 < len(set(case["split"]) & {nt for _, nt in spec["nodes"]}) < len({nt for _, nt in spec["nodes"]}) else set()))
             # (R) round trip
             def rt():
                 P2 = build_P()
